@@ -158,6 +158,9 @@ struct PrngWorld : World {
     static void check_rate_zero(Ctx &c, const char *after)
     {
         if (!c.record || !c.live) return;
+        // p^-1 is the model's; it says something about the generator only where the library's p is the model's p.
+        // A library permutation that differs is a matter for the output-comparing checks (C09, C06, C10), not for C15.
+        if (!ascon_ref::lib_agrees(0)) { c.run->probe("rate_zero.skipped_library_permutation_differs"); return; }
         uint8_t b[40];
         ascon_acquire(&c.ram->xof.state);
         ascon_extract_bytes(&c.ram->xof.state, b, 0, 40);
